@@ -152,6 +152,12 @@ type LoopSpec struct {
 	Unroll     bool
 }
 
+// MutateSpec: `mutates p := e` — the callee overwrites the contents of slice argument p with e.
+type MutateSpec struct {
+	Param string
+	Expr  SExpr
+}
+
 type FreshSpec struct {
 	Name string
 	When SExpr // nil = unconditionally fresh
@@ -181,6 +187,7 @@ type FuncSpec struct {
 	HasAssigns bool
 	Safety     []string // property tags that own the zero-annotation safety obligations of this body
 	Inline     bool
+	Mutates    []MutateSpec // in-place mutation of a slice argument: every copy of that slice value now reads the new contents
 	NoMerge    bool // do not merge if-diamonds in this function (keeps literal-length slices literal so loops unroll)
 	Trusted    bool
 	Loops      map[int]*LoopSpec
@@ -396,7 +403,7 @@ func (l *lexer) here() SPos { return SPos{l.file, l.peek().line} }
 
 var clauseKeywords = map[string]bool{"requires": true, "ensures": true, "assigns": true, "safety": true, "inline": true,
 	"trusted": true, "loop": true, "iter": true, "invariant": true, "panics": true, "frame": true, "pure": true,
-	"ghost": true, "func": true, "axiom": true, "unroll": true, "fresh": true, "note": true, "external": true, "visit": true, "iterator": true, "exit": true, "guarded": true, "nomerge": true}
+	"ghost": true, "func": true, "axiom": true, "unroll": true, "fresh": true, "note": true, "external": true, "visit": true, "iterator": true, "exit": true, "guarded": true, "nomerge": true, "mutates": true}
 
 type eparser struct {
 	l *lexer
@@ -1176,6 +1183,19 @@ func parseSpecLines(path string, lines []string, lineNos []int) (*SpecFile, erro
 		case "nomerge":
 			lx.next()
 			cur.NoMerge = true
+		case "mutates":
+			lx.next()
+			ms := MutateSpec{Param: lx.next().val}
+			if err := lx.expect(":"); err != nil {
+				return nil, err
+			}
+			if err := lx.expect("="); err != nil {
+				return nil, err
+			}
+			if ms.Expr, err = p.parseExpr(0); err != nil {
+				return nil, err
+			}
+			cur.Mutates = append(cur.Mutates, ms)
 		case "trusted":
 			lx.next()
 			sf.Tokens["trusted"]++
